@@ -18,7 +18,9 @@ RULE = ("plan = 0-6 WAL files (ids with gaps, also >= 99999) x 0-40 entries each
         "the eligible logs (every subset for <= 4 eligible files, random beyond) | a pre-existing regular file of that name (garbage, "
         "truncated archive, valid archive of other entries, empty) | injected write failure for a subset (hook); oracle per pass: a log is "
         "deleted only if an archive decoding to exactly its parseable entries exists; a pass with a failing eligible file deletes nothing; "
-        "logs >= n are never deleted; recover_all = entries of all archived logs in log order; distinct_nontrivial counts distinct "
+        "logs >= n are never deleted; recover_all = entries of all archived logs in log order; plus engine histories (a node in "
+        "conservative mode: STORE / FLUSH / auto-flush / clean restart; the harness reads every WAL file before each step and every file that "
+        "vanished must be covered by an archive with exactly its entries); distinct_nontrivial counts distinct "
         "(fault kind, subset shape, pass, file-shape) cells with >= 1 eligible log")
 
 VALUES = [0, 1, -1, 2 ** 31, -2 ** 63, 2 ** 63 - 1, 2 ** 63 + 5, 2 ** 64 - 1, 0.5, -2.75, 1e300, "", "a", "with \"quote\"", "back\\slash", "日本語🚀",
@@ -250,6 +252,103 @@ def plans_task(task, wdir, res):
                          "passes": [(x["keep_from"], x["fault"], x["failing"]) for x in plans[0]["passes"]]}})
 
 
+def engine_task(task, wdir, res):
+    """The same oracle on the real flush-worker path: a node in conservative mode stores, flushes (manual and automatic) and restarts;
+    WAL files are read by the harness before each step, and every file that disappeared must be covered by a complete archive."""
+    import glob
+    import re
+    from . import gen
+    from .hist import Lifetimes, must_ok
+    rng = random.Random(task["seed"])
+    shards = rng.choice([1, 2])
+    cfg = dict(shard_count=shards, event_per_zone=rng.choice([1, 2, 3]), fill_factor=rng.choice([1, 2, 50]), conservative_mode=True)
+    lt = Lifetimes(wdir, **cfg)
+    node = lt.start()
+    res.count("tasks"); res.count("engine_histories")
+    witness = {"seed": task["seed"], "config": cfg, "ops": []}
+    seen_files = {}          # (shard, name) -> list of parsed lines (latest snapshot before the file vanished)
+    vanished = {}            # (shard, name) -> lines it held when last seen
+
+    def snapshot():
+        now = {}
+        for sh in range(shards):
+            for p in glob.glob(os.path.join(wdir, "wal", f"shard-{sh}", "wal-*.log")):
+                try:
+                    lines = [json.loads(l) for l in open(p, encoding="utf-8") if l.strip().startswith("{") and l.rstrip().endswith("}")]
+                except (OSError, ValueError):
+                    continue
+                now[(sh, os.path.basename(p))] = lines
+        for key, lines in seen_files.items():
+            if key not in now:
+                vanished[key] = lines
+        for key, lines in now.items():
+            seen_files[key] = lines
+            vanished.pop(key, None)
+
+    def check(tag):
+        node.syncflush()
+        snapshot()
+        if not vanished:
+            return
+        af = os.path.join(wdir, "c19e.json")
+        with open(af, "w") as f:
+            json.dump({"plans": [], "decode_dirs": [{"shard": sh, "dir": os.path.join(wdir, "wal_archive", f"shard-{sh}")} for sh in range(shards)]}, f)
+        pr = subprocess.run([VUNIT, "c19", af], env=dict(os.environ, SNELDB_CONFIG=os.path.join(wdir, "config")), capture_output=True, timeout=300)
+        if pr.returncode != 0:
+            res.inconclusive.append(f"vunit c19 decode died: {pr.stderr.decode('utf-8', 'replace')[-300:]}")
+            return
+        dec = {d["shard"]: d for d in json.loads(pr.stdout)["decoded"]}
+        for (sh, name), lines in sorted(vanished.items()):
+            res.evaluations += 1
+            fid = int(re.match(r"wal-(\d+)\.log", name).group(1))
+            res.nontrivial(("engine", tag.split(":")[0], "empty" if not lines else "entries", cfg["fill_factor"]))
+            want = [(l.get("event_id"), l.get("context_id"), l.get("event_type"), l.get("timestamp"), json.dumps(l.get("payload"), sort_keys=True)) for l in lines]
+            cands = [a for n, a in dec.get(sh, {}).get("archives", {}).items() if n.startswith("wal-%05d-" % fid)]
+            ok = False
+            for a in cands:
+                if "error" in a:
+                    continue
+                got = [(e["event_id"], e["ctx"], e["type"], e["ts"], json.dumps(e["payload"], sort_keys=True)) for e in a["entries"]]
+                if got == want:
+                    ok = True
+            if not ok:
+                res.violation("log_deleted_without_complete_archive", {"monitor": "engine", "when": tag.split(":")[0]},
+                              f"{tag}: shard {sh} {name} ({len(lines)} entries) is gone; archives for id {fid}: "
+                              f"{[(len(a.get('entries', [])) if 'error' not in a else a['error']) for a in cands]}", dict(witness, file=name))
+        vanished.clear()
+
+    try:
+        must_ok(node.cmd('DEFINE ev FIELDS { k: "int", s: "string" }'), "define")
+        k = 0
+        for step in range(task["steps"]):
+            r = rng.random()
+            if r < 0.6:
+                for _ in range(rng.randint(1, 6)):
+                    k += 1
+                    must_ok(node.cmd(gen.store_cmd("ev", f"c{rng.randint(0, 3)}", {"k": k, "s": rng.choice(["", "x", "日本", "q\"uote"])})), "store")
+                witness["ops"].append("store")
+                node.sync()
+                snapshot()
+                check(f"store:{step}")
+            elif r < 0.85:
+                snapshot()
+                witness["ops"].append("flush")
+                must_ok(node.cmd("FLUSH", timeout=60), "flush")
+                check(f"flush:{step}")
+            else:
+                snapshot()
+                witness["ops"].append("restart")
+                node = lt.restart_clean()
+                check(f"restart:{step}")
+        res.sample({"engine_history": witness["ops"][:12], "config": cfg})
+    finally:
+        lt.stop()
+
+
+def _dispatch(task, wdir, res):
+    (engine_task if task.get("kind") == "engine" else plans_task)(task, wdir, res)
+
+
 def run(run):
     quick = run.tier == "quick"
     n = 16 if quick else 160
@@ -258,10 +357,14 @@ def run(run):
     run.assumptions = ["the sandbox runs as root, so permission bits cannot deny: faults are ENOTDIR (regular file at the shard's archive path), "
                        "EISDIR (directory at the deterministic archive name), a pre-existing regular file of that name, and the wa.write hook",
                        "a torn or unparseable line is not an entry; 'all entries' = the lines the repo's own WalEntry deserialisation accepts"]
-    run.parallel(plans_task, tasks)
+    tasks += [{"name": f"e{i}", "kind": "engine", "seed": run.rng("e", i).getrandbits(44), "steps": 12 if quick else 24} for i in range(12 if quick else 200)]
+    run.parallel(_dispatch, tasks)
 
 
 def replay(run, path):
     with open(path) as f:
         w = json.load(f)["witness"]
-    run.parallel(plans_task, [{"name": "replay", "seed": w["seed"], "plans": 400, "exhaustive": True}], nproc=1)
+    if "ops" in w:
+        run.parallel(_dispatch, [{"name": "replay", "kind": "engine", "seed": w["seed"], "steps": 24}], nproc=1)
+    else:
+        run.parallel(_dispatch, [{"name": "replay", "seed": w["seed"], "plans": 400, "exhaustive": True}], nproc=1)
